@@ -149,6 +149,17 @@ theorem sublist_filter_rename (t : Obj → Bool) (g : Obj → Obj) (hg : ∀ o, 
       simp only [List.filter_cons, ht, List.map_cons, hkv]
       exact List.Sublist.cons_cons _ ih'
 
+/-- pointwise relation between two lists (core Lean has no `Forall₂`) -/
+inductive Forall2 {α β : Type} (R : α → β → Prop) : List α → List β → Prop
+  | nil : Forall2 R [] []
+  | cons {a b as bs} : R a b → Forall2 R as bs → Forall2 R (a :: as) (b :: bs)
+
+theorem Forall2.length_eq {α β : Type} {R : α → β → Prop} {l₁ : List α} {l₂ : List β}
+    (h : Forall2 R l₁ l₂) : l₁.length = l₂.length := by
+  induction h with
+  | nil => rfl
+  | cons _ _ ih => simp [ih]
+
 /-! ### object-local, name-preserving rewriting -/
 
 /-- every object of every schema rewritten in place: keys, order, schema-level fields kept -/
